@@ -87,6 +87,12 @@ func runC15(c *ctx) {
 			lsup = "val"
 		}
 		nsup := c15Supplies[r.intn(len(c15Supplies))]
+		md := map[string]string{}
+		for _, k := range c08Keys {
+			if r.chance(60) {
+				md[k] = r.pick(c08Vals)
+			}
+		}
 		mkRoute := func() *gRoute {
 			g.seq++
 			rt := &gRoute{Kind: "http", Prefix: "/", TimeoutMs: 100 + g.seq}
@@ -107,14 +113,21 @@ func runC15(c *ctx) {
 				// header conditions, some with an expression the engine rejects: whatever the control plane supplies,
 				// neither the routing step nor the retry-key computation may panic
 				rt.Conds = g.conds()
+				if r.chance(60) {
+					// ... and the call's metadata often satisfies them (the route is taken BECAUSE of the metadata)
+					for _, cd := range rt.Conds {
+						switch cd.Kind {
+						case "exact":
+							md[cd.Key] = cd.Val
+						case "prefix":
+							md[cd.Key] = cd.Val + "1"
+						default:
+							md[cd.Key] = "v1"
+						}
+					}
+				}
 			}
 			return rt
-		}
-		md := map[string]string{}
-		for _, k := range c08Keys {
-			if r.chance(60) {
-				md[k] = r.pick(c08Vals)
-			}
 		}
 		var fs []*gFilter
 		var tcfg *gCfg
@@ -177,8 +190,18 @@ func runC15(c *ctx) {
 		}
 		ri := newRI(svcName, method, pretag, false)
 		ctx := rpcinfo.NewCtxWithRPCInfo(context.Background(), ri)
-		for k, v := range md {
-			ctx = metainfo.WithValue(ctx, k, v)
+		// the metadata reaches the routing through the default extractor (metainfo) or through a custom one given as an
+		// option - to the middleware and to the retry policy alike
+		customExtractor := r.bool()
+		var ropts []xdssuite.Option
+		if customExtractor {
+			mdCopy := md
+			ropts = append(ropts, xdssuite.WithRouterMetaExtractor(func(context.Context) map[string]string { return mdCopy }))
+			c.count("custom-extractor", 1)
+		} else {
+			for k, v := range md {
+				ctx = metainfo.WithValue(ctx, k, v)
+			}
 		}
 		nextCalls := 0
 		var err error
@@ -186,12 +209,12 @@ func runC15(c *ctx) {
 		var pmsg string
 		keyUsed := ""
 		if step == "mw" {
-			mw := xdssuite.NewXDSRouterMiddleware()
+			mw := xdssuite.NewXDSRouterMiddleware(ropts...)
 			ep := mw(func(ctx context.Context, req, resp interface{}) error { nextCalls++; return nil })
 			p, pmsg = recoverTo(func() { err = ep(ctx, nil, nil) })
 		} else {
 			o := &client.Options{}
-			opt := xdssuite.NewRetryPolicy(xdssuite.WithMatchRetryMethod(matchMethod))
+			opt := xdssuite.NewRetryPolicy(append([]xdssuite.Option{xdssuite.WithMatchRetryMethod(matchMethod)}, ropts...)...)
 			opt.F(o, &utils.Slice{})
 			rc := o.RetryContainer
 			// install distinguishable policies under every candidate key so that the key that was computed is observable
